@@ -82,6 +82,8 @@ class Ctx:
     # ------------------------------------------------------------- kind sites
     def sites(self, rules: Iterable[str] = (), funcs: Optional[Iterable[str]] = None, files: Optional[Iterable[str]] = None, classes: Optional[Iterable[str]] = None) -> List[Site]:
         rules = set(rules)
+        if "K-ARG" in rules or "K-KEY" in rules:
+            rules.add("K-POS")  # lists indexed by an edge id: reported wherever the argument / key units are
         funcs = set(funcs) if funcs is not None else None
         files = set(files) if files is not None else None
         if files is not None:
